@@ -68,25 +68,9 @@ def flusherResults (s : Sys) (f : Nat) : List Res :=
 def consistent (s : Sys) (f : Nat) (answers : List Bool) : Bool :=
   (emptyAnswers (flusherResults s f)).isPrefixOf answers
 
-/-- one scheduler grant: one model step, except that the CAS of `clear_with` follows its tail load without a
-    yield point in the source — both happen in the grant of `bkt.clear.load_tail` -/
-def grant (s : Sys) (tid : Nat) : Sys :=
-  let s1 := step s tid
-  match s1.threads[tid]? with
-  | some t => (match t.pc with | .cCas _ => step s1 tid | _ => s1)
-  | none => s1
-
-/-- the schedule of single steps that a schedule of grants stands for -/
-def fineSched (s : Sys) : List Nat → List Nat
-  | [] => []
-  | tid :: r =>
-    let s1 := step s tid
-    match s1.threads[tid]? with
-    | some t =>
-      (match t.pc with
-       | .cCas _ => tid :: tid :: fineSched (step s1 tid) r
-       | _ => tid :: fineSched s1 r)
-    | none => tid :: fineSched s1 r
+/-- one scheduler grant = exactly one model step: every PC of the bucket machine is a yield point of bucket.rs (the
+    detaching CAS of `clear_with` is the point `bkt.clear.cas`, between the tail load and the CAS) -/
+def grant (s : Sys) (tid : Nat) : Sys := step s tid
 
 /-- the answers of the flusher's `is_empty` calls under this schedule of grants, discovered one at a time: guess
     `true` for the next one, run, read what it really answered -/
